@@ -722,6 +722,9 @@ def gen_mixed_portfolio(rng, kinds=ALL_KINDS, g=None, n_assets=(2, 6), n_nodes=(
             assets.append({'type': 'SimpleContract', 'name': 'mkt_' + heat, 'nodes': [heat], 'price': key, 'min_cap': -30. * f, 'max_cap': 30. * f, 'extra_costs': 0.3, 'wacc': 0.})
             assets.append({'type': 'CHPAsset_with_min_load_costs', 'name': 'ml%d' % j, 'nodes': [nd, heat], 'price': 'p0', 'min_cap': r2(1. * f), 'max_cap': r2(6. * f), 'extra_costs': 0.5, 'wacc': 0.,
                            'min_load_threshhold': r2(3. * f), 'min_load_costs': r2(pick(rng, [0.5, 2.]) * f), 'start_costs': pick(rng, [0., 2.])})
+            if window and rng.random() < 0.35:
+                s_, e_, _k = gen_window(rng, g, kinds=['inside', 'inside', 'straddle_start', 'straddle_end', 'start_only', 'end_only'])      # a lifetime of its own
+                assets[-1]['start'] = s_; assets[-1]['end'] = e_
         elif ty == 'coarse' and g['freq'] in COARSE_OF:
             cf = pick(rng, COARSE_OF[g['freq']])
             base = pick(rng, ['contract', 'contract', 'storage', 'transport'])
